@@ -113,6 +113,10 @@ def binding_selftest(ctx, cases, v, kf):
         muts.append(("saved bytes differ from the original", t))
         t = copy.deepcopy(cases[ok]); e = next(e for e in t if e["ev"] == "saved" and e["ok"]); e["ok"] = False
         muts.append(("complete transfer could not be saved", t))
+        t = copy.deepcopy(cases[ok]); es = [e for e in t if e["ev"] == "saved" and e["ok"] and e.get("list") != "top"]
+        if es:
+            es[0]["eq"] = False
+            muts.append(("by-name entry saved another transfer's bytes", t))
         t = [e for e in copy.deepcopy(cases[ok]) if e["ev"] != "tree"]
         muts.append(("tree event deleted", t))
         t = copy.deepcopy(cases[ok]); ms = [e for e in t if e["ev"] == "msg"]
@@ -173,7 +177,11 @@ def check(ctx):
     # what exposes regressions of the package-number logic that the file-size check masks under a single fault)
     # auto: the auto-save directory as state - two interleaved transfers that may SHARE a base name (different directory parts,
     # identical names), all interleavings, a file appearing in the directory at any point (environment action)
-    cfgs = ["FileTransfer_single_emit.cfg", "FileTransfer_dupalso_emit.cfg", "FileTransfer_pair_emit.cfg", "FileTransfer_auto_emit.cfg"]
+    cfgs = ["FileTransfer_single_emit.cfg", "FileTransfer_dupalso_emit.cfg", "FileTransfer_pair_emit.cfg", "FileTransfer_auto_emit.cfg",
+            # names: three transfers (round-robin interleavings) with EVERY assignment of alphabetical name ranks (occurrence order, reverse,
+            # shuffled, equal names): the state report lists every transfer by occurrence and sorted by name; the driver saves through
+            # every entry of every list with the entry's own command context - the bytes must be those of the transfer the entry names
+            "FileTransfer_names_emit.cfg"]
     if not quick:
         cfgs += ["FileTransfer_pair2_emit.cfg", "FileTransfer_pair3_emit.cfg"]
     scns = []
@@ -181,7 +189,7 @@ def check(ctx):
     for cfg in cfgs:
         res = c.tlc_must_pass(ctx, cfg[13:-4], "FileTransfer.tla", cfg, timeout=3000)
         for s in c.scn_lines(res):
-            key = json.dumps([s["shape"], s["wire"], s.get("auto"), s.get("base")], sort_keys=True)
+            key = json.dumps([s["shape"], s["wire"], s.get("auto"), s.get("base"), s.get("rank")], sort_keys=True)
             if key not in seen:
                 seen.add(key)
                 scns.append(s)
@@ -242,7 +250,8 @@ def check(ctx):
     ctx.extra["kf_switches"] = kf
     ctx.extra["kf_cases"] = len([k for k in v.known if k not in v.violations])
     # contract actions fired (from the trace)
-    fired = {"msg_complete_seen": 0, "saved_ok": 0, "saved_refused": 0, "tree_with_autosaved_file": 0, "preexisting_kept": 0}
+    fired = {"msg_complete_seen": 0, "saved_ok": 0, "saved_refused": 0, "tree_with_autosaved_file": 0, "preexisting_kept": 0,
+             "saved_ok_through_by_name_entry": 0}
     for k, evs in cases.items():
         h = evs[0]["hdr"]
         for e in evs[1:]:
@@ -250,6 +259,8 @@ def check(ctx):
                 fired["msg_complete_seen"] += 1
             elif e["ev"] == "saved":
                 fired["saved_ok" if e["ok"] else "saved_refused"] += 1
+                if e["ok"] and e.get("list") != "top":
+                    fired["saved_ok_through_by_name_entry"] += 1
             elif e["ev"] == "tree":
                 if e["new"]:
                     fired["tree_with_autosaved_file"] += 1
@@ -259,7 +270,8 @@ def check(ctx):
     need = ["fault_dropFLST", "fault_dropFLFI", "fault_dropPkg", "fault_dup", "fault_swap", "fault_resize", "fault_none", "two_transfers",
             "with_unrelated_message", "last_package_shorter", "package_size_1", "file_of_one_package", "cfg_allow_save+auto_save",
             "cfg_auto_save_only", "rnd_interleaved_transfers", "rnd_dup", "rnd_swap", "rnd_resize", "rnd_foreign_apid_copy",
-            "shared_base_name", "file_appears_in_auto_save_dir", "rnd_shared_base_name", "rnd_file_appears_in_auto_save_dir"]
+            "shared_base_name", "file_appears_in_auto_save_dir", "rnd_shared_base_name", "rnd_file_appears_in_auto_save_dir",
+            "names_ranked_by_model", "name_order_differs_from_occurrence", "duplicate_names", "rnd_names_reverse_order", "rnd_names_all_equal"]
     missing = [k for k in need if not info["paths"].get(k)] + [k for k, n in fired.items() if n == 0]
     ctx.extra["paths_never_exercised"] = missing
     if missing and not ctx.violations:      # (with violations the code may be too broken to reach a path: the verdict stands)
